@@ -25,6 +25,8 @@ pub struct State {
     pub fail_at: Option<usize>,
     /// when failing, first scribble over half of the buffer (a "partially filled" failure)
     pub partial: bool,
+    /// an outage rather than a glitch: every draw from `fail_at` on fails (set with `outage`, cleared by the next `reset`)
+    pub lasting: bool,
     pub counter: usize,
 }
 
@@ -34,6 +36,7 @@ pub static STATE: Mutex<State> = Mutex::new(State {
     log: Vec::new(),
     fail_at: None,
     partial: false,
+    lasting: false,
     counter: 0,
 });
 
@@ -57,7 +60,14 @@ pub fn reset(source: Source, record: bool, fail_at: Option<usize>, partial: bool
     s.log.clear();
     s.fail_at = fail_at;
     s.partial = partial;
+    s.lasting = std::mem::take(&mut *NEXT_LASTING.lock().unwrap_or_else(|e| e.into_inner()));
     s.counter = 0;
+}
+
+static NEXT_LASTING: Mutex<bool> = Mutex::new(false);
+/// the next `reset` with a `fail_at` arms an outage: that draw and every later one fail
+pub fn outage_next() {
+    *NEXT_LASTING.lock().unwrap_or_else(|e| e.into_inner()) = true;
 }
 
 pub fn passthrough() {
@@ -75,7 +85,7 @@ unsafe extern "Rust" fn __getrandom_v03_custom(dest: *mut u8, len: usize) -> Res
     let mut s = STATE.lock().unwrap_or_else(|e| e.into_inner());
     let idx = s.counter;
     s.counter += 1;
-    if s.fail_at == Some(idx) {
+    if s.fail_at == Some(idx) || (s.lasting && s.fail_at.is_some_and(|f| idx >= f)) {
         if s.partial {
             let h = len / 2;
             for b in buf[..h].iter_mut() {
